@@ -110,10 +110,12 @@ example :
                 .writeHeader 404, .copy ["cc".toList, "d".toList]]
     (∀ o ∈ ops, OpValid o) ∧ ops.any isPanicOp = false ∧
     active ⟨10, true, true, [], [], []⟩ "/p".toList "gzip".toList = "gzip".toList := by
-  refine ⟨?_, by decide, by decide⟩
-  intro o ho
-  simp only [List.mem_cons, List.not_mem_nil, or_false] at ho
-  rcases ho with rfl | rfl | rfl | rfl | rfl | rfl <;> first | trivial | (constructor <;> decide)
+  refine ⟨?_, by decide, ?_⟩
+  · intro o ho
+    simp only [List.mem_cons, List.not_mem_nil, or_false] at ho
+    rcases ho with rfl | rfl | rfl | rfl | rfl | rfl <;> first | trivial | (constructor <;> decide)
+  · simp [active, hasSuffix, isPrefix, chooseEncoding, scanAE, cut, parseCoding, paramsQ, eqFold, trimTS, lowerA,
+      Compress.lowerC, parseQValue, brB, gzipB, qGe, isTabSp]
 
 /-- …and by a program that panics before any body output (the K15f scenario), which only
     `transparent_partial` covers -/
@@ -284,6 +286,81 @@ theorem encoding_used_only_if_listed (sn : Sniff) (cfg : Cfg) (path ae : Bytes) 
 
 /-- `encoding_only_if_listed` is not vacuous: odd spacing, a look-alike token and a refused coding -/
 example : chooseEncoding "x-gzip, GZip ; Q=0.5 ,br;q=0".toList ⟨0, true, true, [], [], []⟩ = "gzip".toList := by
+  simp [chooseEncoding, scanAE, cut, parseCoding, paramsQ, eqFold, trimTS, lowerA, Compress.lowerC, parseQValue,
+    brB, gzipB, qGe, isTabSp]
+
+/-! ### the code as it was shipped (witnesses of the repaired findings), and the open finding -/
+
+/-- a stand-in for http.DetectContentType in the witnesses -/
+def sn0 : Sniff := fun _ => "text/sniffed".toList
+def cfg0 (minSize : Nat) : Cfg := ⟨minSize, true, true, [], [], []⟩
+def pth : Bytes := "/p".toList
+def gz : Bytes := "gzip".toList
+def tp : Op := .setH kCT ["text/plain".toList]
+
+/-- K15a as shipped: `c.Status(201)` alone came out as 200 -/
+theorem asis_status_only_lost :
+    (runWithAsIs sn0 (cfg0 0) pth gz [.writeHeader 201]).resp.status = 200 ∧
+    (runPlain sn0 [.writeHeader 201]).1.resp.status = 201 := by decide
+
+/-- K15b as shipped: a Write without WriteHeader panicked (status 0) -/
+theorem asis_bare_write_panics :
+    (runWithAsIs sn0 (cfg0 0) pth gz [tp, .write "hello".toList]).panicked = true ∧
+    (runWithAsIs sn0 (cfg0 10) pth gz [tp, .write "tiny".toList]).panicked = true ∧
+    (runPlain sn0 [tp, .write "hello".toList]).1.panicked = false := by decide
+
+/-- K15c as shipped: minimum size 10, writes of 4 then 10 bytes: the second Write returned 14 -/
+theorem asis_write_returns_too_much :
+    (runWithAsIs sn0 (cfg0 10) pth gz [tp, .writeHeader 200, .write "aaaa".toList, .write "bbbbbbbbbb".toList]).outs
+      = [⟨4, .ok⟩, ⟨14, .ok⟩] := by decide
+
+/-- K15d as shipped: the compressed response had no Content-Type, the plain one a sniffed one -/
+theorem asis_no_sniffed_type :
+    hget (runWithAsIs sn0 (cfg0 0) pth gz [.writeHeader 200, .write "<html>".toList]).resp.hdrs kCT = none ∧
+    hget (runPlain sn0 [.writeHeader 200, .write "<html>".toList]).1.resp.hdrs kCT = some ["text/sniffed".toList] := by
   decide
+
+/-- K15e as shipped: `x-gzip` selected gzip although the client does not list gzip -/
+theorem asis_substring_match :
+    chooseEncodingAsIs "x-gzip".toList (cfg0 0) = gz ∧ listed gz "x-gzip".toList = false ∧
+    chooseEncodingAsIs "brotli".toList (cfg0 0) = "br".toList ∧ listed "br".toList "brotli".toList = false := by
+  decide
+
+/-- K15g as shipped: a later WriteHeader replaced the recorded status -/
+theorem asis_second_writeHeader_wins :
+    (runWithAsIs sn0 (cfg0 0) pth gz [tp, .writeHeader 201, .writeHeader 200, .write "x".toList]).resp.status = 200 ∧
+    (runPlain sn0 [tp, .writeHeader 201, .writeHeader 200, .write "x".toList]).1.resp.status = 201 := by decide
+
+/-- K15h as shipped: the handler could not Flush, so `Flush; WriteHeader(404)` answered 404, not 200 -/
+theorem asis_flush_hidden :
+    (runWithAsIs sn0 (cfg0 0) pth gz [tp, .flush, .writeHeader 404, .write "x".toList]).resp.status = 404 ∧
+    (runPlain sn0 [tp, .flush, .writeHeader 404, .write "x".toList]).1.resp.status = 200 := by decide
+
+/-- K15k as shipped: a header set after WriteHeader leaked into the response -/
+theorem asis_late_header_leaks :
+    hget (runWithAsIs sn0 (cfg0 0) pth gz [tp, .writeHeader 200, .setH "X-Late".toList ["v".toList], .write "x".toList]).resp.hdrs
+      "X-Late".toList = some ["v".toList] ∧
+    hget (runPlain sn0 [tp, .writeHeader 200, .setH "X-Late".toList ["v".toList], .write "x".toList]).1.resp.hdrs
+      "X-Late".toList = none := by decide
+
+/-- K15f as shipped: a handler panic behind recovery left an unfinished stream (undecodable body) -/
+theorem asis_panic_truncates :
+    (runWithAsIs sn0 (cfg0 0) pth gz [.panic, .setH kCT ["application/json".toList], .writeHeader 500, .write "{}".toList]).decoded
+      = none := by decide
+
+/-- K15j as shipped: a response the handler encoded itself was encoded again and relabelled -/
+theorem asis_double_encoding :
+    hget (runWithAsIs sn0 (cfg0 0) pth gz [.setH kCE ["x-own".toList], tp, .write "data".toList]).resp.hdrs kCE
+      = some [gz] ∧
+    hget (runPlain sn0 [.setH kCE ["x-own".toList], tp, .write "data".toList]).1.resp.hdrs kCE
+      = some ["x-own".toList] := by decide
+
+/-- K15m, open: the code as it is now, handler writes then panics behind recovery — the body no
+    longer decodes (the plain run delivers `partial{}`); the program is in the class `panicMidstream` -/
+theorem open_panic_midstream_witness :
+    let ops := [tp, .write "partial".toList, .panic, .setH kCT ["application/json".toList], .writeHeader 500,
+                .write "{}".toList]
+    (respOf sn0 (finalCW sn0 (cfg0 0) gz ops).1 (finalCW sn0 (cfg0 0) gz ops).2).decoded = none ∧
+    (runPlain sn0 ops).1.resp.body = "partial{}".toList ∧ panicMidstream ops = true := by decide
 
 end Rivaas.C15
